@@ -7,6 +7,7 @@ import (
 	"errors"
 	"fmt"
 	"net"
+	"strings"
 	"sync"
 	"time"
 
@@ -137,6 +138,23 @@ func serve(sc *sconn, failHandshake bool) {
 			sc.requests++
 			sc.mu.Unlock()
 			var out proto.Buffer
+			if zone, ok := strings.CutPrefix(q.Body, "zone:"); ok {
+				// a result block with a column in a named time zone (the client's column adopts it), then the end
+				loc, err := time.LoadLocation(zone)
+				if err != nil {
+					loc = time.UTC
+				}
+				ts := &proto.ColDateTime{Location: loc}
+				ts.Append(time.Unix(1700000000, 0))
+				proto.ServerCodeData.Encode(&out)
+				out.PutString("")
+				if err := (proto.Block{Columns: 1, Rows: 1}).EncodeBlock(&out, rev, []proto.InputColumn{{Name: "ts", Data: ts}}); err != nil {
+					return
+				}
+				proto.ServerCodeEndOfStream.Encode(&out)
+				sc.c.Deliver(out.Buf)
+				continue
+			}
 			switch q.Body {
 			case "ok":
 				proto.ServerCodeEndOfStream.Encode(&out)
